@@ -206,6 +206,10 @@ T_Eff == /\ IsEvent("eff")
             /\ (E.e \in {"ctx_stop", "ctx_restart"} => G("eff.ctx", (E.res = "ok") <=> CtxSubmitOk(a)))
             /\ (E.e \in TimerKinds => G("eff.timer", CurEff(a).s = E.s))
             /\ (E.e \in ViaBroker => (G("eff.nested", cli[a].nest = "done") /\ G("eff.nested.res", cli[a].last.res = E.res)))
+            /\ (E.e \in {"call_peer", "send_peer"} =>
+                   /\ G("eff.peer", CurEff(a).s = E.s)
+                   /\ G("eff.peer.res", IF cli[a].nest = "done" THEN cli[a].last.res = E.res
+                                        ELSE (E.res = "none" /\ ~(E.s \in DOMAIN hnd /\ hnd[E.s].owner = a /\ hnd[E.s].kind = "addr"))))
             /\ (E.e \in DOMAIN ChildBucket =>
                    G("eff.child", CurEff(a).s = E.s /\ ((E.res = "ok") <=> (E.s \in DOMAIN hnd /\ hnd[E.s].owner = a /\ hnd[E.s].kind = "addr"))))
             /\ ScriptStep(a) /\ UNCHANGED <<cur, yl>>
@@ -264,6 +268,8 @@ T_Unavailable == /\ IsEvent("unavailable")
 IsSilentLoop(a) ==
   \/ IsBrokerType(act[a].ty)                                                  \* the broker is library code: nothing of it is logged
   \/ InScript(a) /\ cli[a].nest = "run"                                       \* nested registry / broker operation of a handler
+  \/ InScript(a) /\ ~ScriptDone(a) /\ cli[a].nest = "none" /\ CurEff(a).e \in {"call_peer", "send_peer"}    \* a handler starts calling a peer
+     /\ CurEff(a).s \in DOMAIN hnd /\ hnd[CurEff(a).s].owner = a /\ hnd[CurEff(a).s].kind = "addr"
   \/ act[a].pc = "idle" /\ act[a].mq # <<>>                                   \* Dequeue
   \/ act[a].pc = "idle" /\ act[a].stream /\ act[a].sq.ready > 0                \* StreamItem
   \/ act[a].pc = "dequeued" /\ act[a].curp.k = "task" /\ act[a].curp.rs = "ping"   \* PingHandled
